@@ -5,13 +5,15 @@
    declared size n (selection of 1-based elements | ErrV = the generator's own ValueError | ErrB = any
    other exception); `modelica n u` is the specification (Modelica's 1-based inclusive ranges
    start:step:stop, ErrV as soon as one selected element is outside 1..n).  `c : cfg` says which
-   repairs the tree contains; /repo today is `as_coded` = Cfg false false false. *)
+   repairs the tree contains: `as_coded` = Cfg false false false false is /repo as of round 1;
+   /repo after the fix commits 05b675f, f098077, f8eb4b4 is Cfg true true false true. *)
 From Coq Require Import ZArith List Bool.
 From PV Require Import Model.C23_index Proofs.C23_index.
 Import ListNotations.
 Open Scope Z_scope.
 
-Definition as_coded : cfg := Cfg false false false.
+Definition as_coded : cfg := Cfg false false false false.
+Definition repo_now : cfg := Cfg true true false true.
 
 (* scalar subscripts, whatever the configuration and for every n: exactly the elements 1..n are
    accepted (and map to themselves), everything else -- 0, negatives, n+1.. -- raises ValueError *)
@@ -38,7 +40,27 @@ Proof.
 Qed.
 Print Assumptions C23_checked.
 
-(* PARTIAL (what holds of /repo as it is, and of every configuration): two-part subscripts that stay
+(* with the empty-range repair as well (the configuration of /repo now, up to three-part ranges) the
+   outcome IS the specification: full equality, no exception for empty selections *)
+Theorem C23_checked_exact (c : cfg) (n : Z) (u : sub) :
+  chk_slice c = true -> chk_loop c = true -> empty_ok c = true ->
+  step_of u <> 0 /\ (three_part u = true -> mod3 c = true) ->
+  0 <= n ->
+  index c n u = modelica n u.
+Proof. exact (index_checked_exact c n u). Qed.
+Print Assumptions C23_checked_exact.
+
+(* ... in particular for /repo as it is now and every two-part subscript (scalar, ':', a:b, loop
+   index with offset), every n >= 0 and all integer bounds and offsets *)
+Theorem C23_repo_now_two_part (n : Z) (u : sub) :
+  three_part u = false -> 0 <= n -> index repo_now n u = modelica n u.
+Proof.
+  intros H3 Hn.
+  exact (index_checked_exact repo_now n u eq_refl eq_refl eq_refl (two_part_wf repo_now u H3) Hn).
+Qed.
+Print Assumptions C23_repo_now_two_part.
+
+(* PARTIAL (what holds of /repo as it was, and of every configuration): two-part subscripts that stay
    inside the array -- scalar i, ':', a:b with 1 <= a and 0 <= b <= n, loop indices i+off all inside
    1..n -- select exactly the Modelica elements.  Missing for the full property: the out-of-range
    slices and loop indices (refuted below) and three-part ranges. *)
@@ -56,7 +78,8 @@ Theorem C23_2d_checked (c : cfg) (n m : Z) (u v : sub) (l : list (Z * Z)) :
 Proof. exact (index2_sound c n m u v l). Qed.
 Print Assumptions C23_2d_checked.
 
-(* REFUTED for the code as it is (known findings, see findings/known.d/C23.json) *)
+(* REFUTED for the code as it was before 05b675f / f098077 (`as_coded`; now fixed findings); the
+   three-part witness still holds of /repo (known finding three-part-range) *)
 (* x[0:2] on Real x[3]: out of range, yet generation succeeds and selects nothing *)
 Theorem C23_slice_refuted :
   exists n u, modelica n u = ErrV /\ index as_coded n u = Ok [].
@@ -77,16 +100,16 @@ Print Assumptions C23_loop_refuted.
 
 (* x[1:3:2] on Real x[3]: Modelica start 1, step 3, stop 2 = {1}; read as start:stop:step = {1,3},
    with or without the range checks *)
-Theorem C23_three_part_refuted (cs cl : bool) :
-  modelica 3 (Sl3 1 3 2) = Ok [1] /\ index (Cfg cs cl false) 3 (Sl3 1 3 2) = Ok [1; 3].
-Proof. destruct cs, cl; split; vm_compute; reflexivity. Qed.
+Theorem C23_three_part_refuted (cs cl ce : bool) :
+  modelica 3 (Sl3 1 3 2) = Ok [1] /\ index (Cfg cs cl false ce) 3 (Sl3 1 3 2) = Ok [1; 3].
+Proof. destruct cs, cl, ce; split; vm_compute; reflexivity. Qed.
 Print Assumptions C23_three_part_refuted.
 
 (* non-vacuity: the hypotheses of C23_checked are satisfiable and the conclusion is not trivial --
    a repaired configuration rejects x[0:2] and the wrapped loop, and accepts x[2:3] as {2,3} *)
 Example C23_example :
-  let c := Cfg true true true in
-  wf c (Sl3 3 (-1) 1) /\
+  let c := Cfg true true true true in
+  wf c (Sl3 3 (-1) 1) /\ index c 3 (LoopV 3 1 1) = Ok [] /\
   index c 3 (Sl 0 2) = ErrV /\ index c 3 (LoopV 0 3 0) = ErrV /\
   index c 3 (Sl 2 3) = Ok [2; 3] /\ index c 3 (Sl3 3 (-1) 1) = Ok [3; 2; 1] /\
   index c 3 (LoopV 1 2 1) = Ok [2; 3].
